@@ -2,7 +2,7 @@
 import os, random
 from vlib.flow import Check
 from vlib import core, cli
-from props import _wf
+from props import _wf, _stream
 
 META = {
     "level": "proof",
@@ -19,6 +19,8 @@ def run(tier, seed, replay=None):
     c.assumptions = ["the primitive crates used by the reference reader implement AES-256, Camellia-256, PBKDF2-HMAC-SHA256, Argon2, zlib, zstd and xz"]
     c.proofs()
     c.correspondence("wf", ["wf", "refdecode", "dump"])
+    # Props/C14_calls.v: every ChunkStreamWriter::write call emits well-formed chunks carrying exactly the bytes it counts
+    _stream.step_sinks(c, "C14")
     rnd = random.Random(seed)
     n_cli = 260 if tier == "quick" else 19000
     files = _wf.spool_files()
@@ -48,4 +50,5 @@ def run(tier, seed, replay=None):
     c.correspondence_py("wf", cases, impl)
     return c.finish("proof", ["Coq 8.16.1 kernel and VM", "ExtrOcamlBasic extraction + modelrun/driver.ml",
                               "harness/src/refdec.rs + refdecode (independent reference reader) and the primitive crates",
-                              "harness/src/bin/wf.rs (generators, mutations)", "props/_wf.py (CLI sampling, source-content oracle)"])
+                              "harness/src/bin/wf.rs (generators, mutations)", "props/_wf.py (CLI sampling, source-content oracle)",
+                              "harness/src/bin/stream.rs op csw (chunk parser of its own, crc32fast called directly)"])
